@@ -1,5 +1,6 @@
 """C02 — float->decimal output round-trips exactly and is shortest."""
 import gens
+import gens_walgos
 import vlib
 from props.common import TRUSTED_BASE, ASSUMPTIONS
 
@@ -35,6 +36,7 @@ def streams(tier, rng, fs, profile):
             cases = [c for i, c in enumerate(cases) if i % 3 == rng.randrange(3) or i > len(cases) - 3000]
         cases += gens.midpoint_decimal_floats(ty, 3 if tier == "quick" else 4)
         out.append(("g-bits-" + ty, gens.float_write_default_ops(rng, ty, sorted(set(cases)))))
+    out += gens_walgos.digit_generator_streams(tier, rng, fs)     # component level: to_decimal / grisu vs the Lean models
     return out
 
 
